@@ -7,6 +7,7 @@
  N38 `D[k] = A if C else B` / `x.a = A if C else B` (a statement)  ->  `if C: D[k] = A else: D[k] = B`
  N56 adjacent `if T: A else: B` + `if T: C else: D` (same isinstance test, name not re-bound) -> `if T: A; C else: B; D`
  N39 `len(X) if X else 0` -> `len(X or ())`
+ N62 worklist elimination: `todo = [P]; while todo: cur = todo.pop(); BODY; todo.extend(reversed(XS))` -> the recursion over XS
  N60 `x, = S` -> `x = next(iter(S))`
  N59 `L = [E for T in XS if C]; if not L: raise ..; for y in L: BODY` -> the scan with a found-flag
  N53 `D.get(K, X)` over plain operands -> `D[K] if K in D else X`
@@ -767,12 +768,102 @@ def _n59(fn, counter):
             break
 
 
+def _n62(fn, is_method: bool, counter):
+    """N62 worklist elimination: a function whose whole body is
+           todo = [P];  while todo: cur = todo.pop(); BODY          (P a parameter; BODY pushes children with
+                                                                     todo.extend(reversed(XS)) / todo.append(x) as the last thing it does)
+       is the recursion   BODY[cur:=P] with `for c in XS: f(.., c)` in place of the pushes (depth first, same order)"""
+    body = [s_ for s_ in fn.body if not (isinstance(s_, ast.Expr) and isinstance(s_.value, ast.Constant))]
+    docs = [s_ for s_ in fn.body if isinstance(s_, ast.Expr) and isinstance(s_.value, ast.Constant)]
+    if len(body) not in (2, 3):
+        return
+    if len(body) == 3 and not (isinstance(body[2], ast.Return) and (body[2].value is None or (isinstance(body[2].value, ast.Constant)
+                                                                                            and body[2].value.value is None))):
+        return
+    init, loop = body[0], body[1]
+    params = [a.arg for a in fn.args.args]
+    if not (isinstance(init, ast.Assign) and len(init.targets) == 1 and isinstance(init.targets[0], ast.Name)
+            and isinstance(init.value, ast.List) and len(init.value.elts) == 1 and isinstance(init.value.elts[0], ast.Name)
+            and init.value.elts[0].id in params):
+        return
+    todo, P = init.targets[0].id, init.value.elts[0].id
+    if not (isinstance(loop, ast.While) and not loop.orelse and isinstance(loop.test, ast.Name) and loop.test.id == todo and loop.body):
+        return
+    first = loop.body[0]
+    if not (isinstance(first, ast.Assign) and len(first.targets) == 1 and isinstance(first.targets[0], ast.Name)
+            and isinstance(first.value, ast.Call) and isinstance(first.value.func, ast.Attribute) and first.value.func.attr == 'pop'
+            and isinstance(first.value.func.value, ast.Name) and first.value.func.value.id == todo and not first.value.args):
+        return
+    cur = first.targets[0].id
+    rest = loop.body[1:]
+    if fn.args.vararg or fn.args.kwarg or fn.args.kwonlyargs:
+        return
+    if any(isinstance(n, (ast.Break, ast.Continue, ast.Return, ast.Yield, ast.YieldFrom)) for s_ in rest for n in ast.walk(s_)):
+        return
+    # P and cur must not be used otherwise
+    if any(isinstance(n, ast.Name) and n.id == P for s_ in rest for n in ast.walk(s_)):
+        return
+    if sum(1 for n in ast.walk(fn) if isinstance(n, ast.Name) and n.id == cur and not isinstance(n.ctx, ast.Load)) != 1:
+        return
+    ok = [True]
+    uses = [n for s_ in rest for n in ast.walk(s_) if isinstance(n, ast.Name) and n.id == todo]
+    handled = set()
+
+    def recursive_call(arg: ast.AST) -> ast.stmt:
+        args = [ast.Name(p_, ast.Load()) if p_ != P else arg for p_ in params]
+        if is_method:
+            func = ast.Attribute(args[0], fn.name, ast.Load())
+            args = args[1:]
+        else:
+            func = ast.Name(fn.name, ast.Load())
+        return ast.Expr(ast.Call(func, args, []))
+
+    def tail(stmts):
+        if not stmts:
+            return
+        last = stmts[-1]
+        if isinstance(last, ast.If):
+            tail(last.body)
+            tail(last.orelse)
+            return
+        if isinstance(last, ast.Expr) and isinstance(last.value, ast.Call) and isinstance(last.value.func, ast.Attribute) \
+                and isinstance(last.value.func.value, ast.Name) and last.value.func.value.id == todo and len(last.value.args) == 1 \
+                and not last.value.keywords and last.value.func.attr in ('extend', 'append'):
+            a = last.value.args[0]
+            handled.add(id(last.value.func.value))
+            counter[0] += 1
+            c = 'child__w%d' % counter[0]
+            if last.value.func.attr == 'append':
+                stmts[-1] = ast.copy_location(recursive_call(a), last)
+            else:
+                if isinstance(a, ast.Call) and isinstance(a.func, ast.Name) and a.func.id == 'reversed' and len(a.args) == 1:
+                    it = a.args[0]
+                else:
+                    it = ast.Call(ast.Name('reversed', ast.Load()), [a], [])
+                stmts[-1] = ast.copy_location(ast.For(ast.Name(c, ast.Store()), it, [recursive_call(ast.Name(c, ast.Load()))], [],
+                                                      lineno=last.lineno), last)
+    tail(rest)
+    if any(id(n) not in handled for n in uses) or not handled:
+        return
+    for s_ in rest:
+        for n in ast.walk(s_):
+            if isinstance(n, ast.Name) and n.id == cur:
+                n.id = P
+    fn.body = docs + rest
+    ast.fix_missing_locations(fn)
+
+
 def pre_normalize(tree: ast.Module) -> ast.Module:
     tree = _n39(tree)
     tree = _n47(tree)
     tree = _n53(tree)
     _n42(tree)
     counter = [0]
+    for holder in ast.walk(tree):
+        if isinstance(holder, (ast.Module, ast.ClassDef)):
+            for fn in [n for n in holder.body if isinstance(n, ast.FunctionDef)]:
+                _n62(fn, isinstance(holder, ast.ClassDef) and not any(isinstance(d, ast.Name) and d.id == 'staticmethod' for d in fn.decorator_list),
+                     counter)
     for fn in [n for n in ast.walk(tree) if isinstance(n, (ast.FunctionDef, ast.AsyncFunctionDef))]:
         _n60(fn)
         _n49(fn)
